@@ -51,6 +51,7 @@ Section Known.
 Variable e : env.
 Hypothesis He : wf_env e.
 Hypothesis Hk : is_known (e_kind e) = true.
+Hypothesis Hown : e_owning e = match e_kind e with KVec | KArray => true | _ => false end.
 Variable L : list tid.
 Hypothesis NDL : NoDup L.
 
@@ -58,6 +59,14 @@ Definition frontier (sh : shared) : N := N.min (s_c sh) (e_len e).
 Definition acc_iv (ts : tstate) : list iv := map (run_iv e) (t_acc ts).
 Definition accs (pool : tid -> tstate) : list iv := gather (fun t => acc_iv (pool t)) L.
 Definition hist (c : cfg) : list iv := cov e (c_trace c) ++ accs (c_pool c).
+
+(** the ledger of the consuming kinds: what was moved to callers and what the machinery destroyed *)
+Definition led (c : cfg) : list iv :=
+  (taken_all e (c_trace c) ++ dropped_all (c_trace c)) ++ accs (c_pool c).
+
+(** the delivered intervals are a gap-free prefix, and it reaches the counter while the counter is inside the source *)
+Definition gap_ok (sh : shared) (h : list iv) : Prop :=
+  iv_total h = iv_maxhi h /\ (s_c sh < e_len e -> iv_total h = s_c sh).
 
 Definition kpc_ok (ts : tstate) : Prop :=
   match t_pc ts with
@@ -103,7 +112,10 @@ Record KInv (c : cfg) : Prop := {
   k_rep  : forall m, min_reported (c_trace c) = Some m -> e_len e - frontier (c_sh c) <= m;
   k_sk   : has_skip (c_trace c) = true ->
            skip_returned (c_trace c) = true \/ exists u, In u L /\ t_pc (c_pool c u) = PSkip;
-  k_evs  : all_rets ev_all (c_trace c) = true
+  k_evs  : all_rets ev_all (c_trace c) = true;
+  k_gap  : has_panic (c_trace c) = false -> gap_ok (c_sh c) (hist c);
+  k_led  : if e_owning e then tiling true (frontier (c_sh c)) (led c) else dropped_all (c_trace c) = [];
+  k_slots : forall t bf, t_buf (c_pool c t) = Some bf -> bf_slots bf = []
 }.
 
 (** events of thread [t] *)
@@ -152,8 +164,60 @@ Proof.
     rewrite !app_assoc. apply Permutation_app_tail. apply Permutation_app_comm.
 Qed.
 
+(** the multiset of delivered intervals after a step: [delta] is what the step acquired *)
+Lemma move_perm pool t ts' (base base' newp delta : list iv) :
+  In t L ->
+  Permutation (newp ++ acc_iv ts') (delta ++ acc_iv (pool t)) ->
+  Permutation base' (newp ++ base) ->
+  Permutation (base' ++ accs (upd pool t ts')) (delta ++ (base ++ accs pool)).
+Proof.
+  intros Hin P Pb. destruct (accs_upd pool t ts' Hin) as (rest & P1 & P2).
+  rewrite P1, P2, Pb.
+  transitivity ((newp ++ acc_iv ts') ++ base ++ rest).
+  - rewrite <- !app_assoc. apply Permutation_app_head.
+    rewrite !app_assoc. apply Permutation_app_tail. apply Permutation_app_comm.
+  - rewrite P. rewrite <- !app_assoc. apply Permutation_app_head.
+    rewrite !app_assoc. apply Permutation_app_tail. apply Permutation_app_comm.
+Qed.
+
+Lemma gap_perm sh h h' : Permutation h h' -> gap_ok sh h -> gap_ok sh h'.
+Proof.
+  intros P [H1 H2]. unfold gap_ok. rewrite <- (iv_total_perm _ _ P), <- (iv_maxhi_perm _ _ P). auto.
+Qed.
+
+Lemma gap_keep sh sh' h :
+  (s_c sh' < e_len e -> s_c sh < e_len e /\ s_c sh' = s_c sh) -> gap_ok sh h -> gap_ok sh' h.
+Proof. intros Hs [H1 H2]. split; [assumption|]. intros H. destruct (Hs H) as [Ha Hb]. rewrite Hb. auto. Qed.
+
+Lemma gap_extend sh sh' h delta cnt :
+  gap_ok sh h -> s_c sh < e_len e -> 1 <= cnt ->
+  iv_total delta = cnt -> iv_maxhi delta = s_c sh + cnt ->
+  (s_c sh' < e_len e -> s_c sh' = s_c sh + cnt) ->
+  gap_ok sh' (delta ++ h).
+Proof.
+  intros [H1 H2] Hlt Hc Ht Hm Hs. specialize (H2 Hlt). unfold gap_ok.
+  rewrite iv_total_app, iv_maxhi_app, Ht, Hm. split; [lia|]. intros H. rewrite (Hs H). lia.
+Qed.
+
+Lemma iv_maxhi_split b took cnt :
+  took <= cnt -> 1 <= cnt -> iv_maxhi ((if took =? 0 then [] else [(b, took)]) ++ [(b + took, cnt - took)]) = b + cnt.
+Proof.
+  intros H1 H2. destruct (N.eqb_spec took 0) as [->|Hz]; cbn [app iv_maxhi snd fst iv_hi]; unfold iv_hi; cbn [fst snd].
+  - destruct (N.eqb_spec (cnt - 0) 0); lia.
+  - destruct (N.eqb_spec took 0); [contradiction|]. destruct (N.eqb_spec (cnt - took) 0); lia.
+Qed.
+
+Lemma has_panic_app_false evs tr : has_panic (evs ++ tr) = false -> has_panic tr = false.
+Proof.
+  induction evs as [|ev evs IH]; [auto|]. cbn [app]. intros H.
+  destruct (has_panic (evs ++ tr)) eqn:E; [rewrite (has_panic_cons ev _ E) in H; discriminate|]. apply IH. reflexivity.
+Qed.
+
 Lemma not_iter : e_kind e <> KIter.
 Proof. intros E. rewrite E in Hk. discriminate Hk. Qed.
+
+Lemma kind_cases : e_kind e = KSlice \/ e_kind e = KVec \/ e_kind e = KArray \/ e_kind e = KRange.
+Proof. pose proof not_iter as H. destruct (e_kind e); auto. contradiction H; reflexivity. Qed.
 
 (** ** how a commit changes the invariant's ingredients *)
 
@@ -182,9 +246,15 @@ Lemma kinv_commit c t sh' ts' l evs :
   (has_skip (evs ++ c_trace c) = true ->
      skip_returned (evs ++ c_trace c) = true \/ exists u, In u L /\ t_pc (upd (c_pool c) t ts' u) = PSkip) ->
   all_rets ev_all (evs ++ c_trace c) = true ->
+  (has_panic (evs ++ c_trace c) = false ->
+     gap_ok sh' (cov e (evs ++ c_trace c) ++ accs (upd (c_pool c) t ts'))) ->
+  (if e_owning e
+   then tiling true (frontier sh') ((taken_all e (evs ++ c_trace c) ++ dropped_all (evs ++ c_trace c)) ++ accs (upd (c_pool c) t ts'))
+   else dropped_all (evs ++ c_trace c) = []) ->
+  (forall bf, t_buf ts' = Some bf -> bf_slots bf = []) ->
   KInv (commit c t sh' ts' l evs).
 Proof.
-  intros I Hin Fev Hpc Htodo Hbuf Hcall Hpend Htil Hend Hskip Hbs Hacc Hrep Hsk Hevs.
+  intros I Hin Fev Hpc Htodo Hbuf Hcall Hpend Htil Hend Hskip Hbs Hacc Hrep Hsk Hevs Hgap Hled Hslots.
   split; cbn [commit c_pool c_trace c_sh].
   - intros u. destruct (Nat.eq_dec u t) as [->|Hn].
     + rewrite upd_same. auto.
@@ -212,6 +282,11 @@ Proof.
   - exact Hrep.
   - exact Hsk.
   - exact Hevs.
+  - exact Hgap.
+  - exact Hled.
+  - intros u bf. destruct (Nat.eq_dec u t) as [->|Hn].
+    + rewrite upd_same. apply Hslots.
+    + rewrite upd_other by assumption. apply (k_slots c I).
 Qed.
 
 (** the skip bookkeeping is kept by a step of a thread that neither starts nor finishes a skip *)
@@ -243,6 +318,99 @@ Proof. intros H1. unfold step. rewrite H1. destruct (e_kind e); try reflexivity.
 
 Lemma wadd_nowrap a b : a + b < W -> wadd a b = a + b.
 Proof. intros H. unfold wadd. apply N.mod_small. exact H. Qed.
+
+(** ** the gap-free prefix and the ledger across a step *)
+
+Lemma same_gap c t ts' sh' tr' newcov :
+  KInv c -> In t L ->
+  cov e tr' = newcov ++ cov e (c_trace c) ->
+  Permutation (newcov ++ acc_iv ts') (acc_iv (c_pool c t)) ->
+  (s_c sh' < e_len e -> s_c (c_sh c) < e_len e /\ s_c sh' = s_c (c_sh c)) ->
+  has_panic (c_trace c) = false ->
+  gap_ok sh' (cov e tr' ++ accs (upd (c_pool c) t ts')).
+Proof.
+  intros I Hin Ec P Hs Hnp. rewrite Ec.
+  eapply gap_perm; [apply Permutation_sym; apply (move_perm (c_pool c) t ts' (cov e (c_trace c)) _ newcov []);
+                    [assumption|exact P|apply Permutation_refl]|].
+  cbn [app]. eapply gap_keep; [exact Hs|]. apply (k_gap c I Hnp).
+Qed.
+
+Lemma ext_gap c t ts' sh' tr' newcov delta cnt :
+  KInv c -> In t L ->
+  cov e tr' = newcov ++ cov e (c_trace c) ->
+  Permutation (newcov ++ acc_iv ts') (delta ++ acc_iv (c_pool c t)) ->
+  s_c (c_sh c) < e_len e -> 1 <= cnt ->
+  iv_total delta = cnt -> iv_maxhi delta = s_c (c_sh c) + cnt ->
+  (s_c sh' < e_len e -> s_c sh' = s_c (c_sh c) + cnt) ->
+  has_panic (c_trace c) = false ->
+  gap_ok sh' (cov e tr' ++ accs (upd (c_pool c) t ts')).
+Proof.
+  intros I Hin Ec P Hlt Hc Ht Hm Hs Hnp. rewrite Ec.
+  eapply gap_perm; [apply Permutation_sym; apply (move_perm (c_pool c) t ts' (cov e (c_trace c)) _ newcov delta);
+                    [assumption|exact P|apply Permutation_refl]|].
+  eapply gap_extend; try eassumption. apply (k_gap c I Hnp).
+Qed.
+
+Lemma led_base_perm (tk dr newtk newdr : list iv) :
+  Permutation ((newtk ++ tk) ++ (newdr ++ dr)) ((newtk ++ newdr) ++ (tk ++ dr)).
+Proof.
+  rewrite <- !app_assoc. apply Permutation_app_head. rewrite !app_assoc. apply Permutation_app_tail.
+  apply Permutation_app_comm.
+Qed.
+
+Lemma same_led c t ts' sh' tr' newtk newdr :
+  KInv c -> In t L ->
+  taken_all e tr' = newtk ++ taken_all e (c_trace c) -> dropped_all tr' = newdr ++ dropped_all (c_trace c) ->
+  Permutation ((newtk ++ newdr) ++ acc_iv ts') (acc_iv (c_pool c t)) ->
+  (e_owning e = false -> newdr = []) ->
+  (e_owning e = true -> frontier sh' = frontier (c_sh c)) ->
+  if e_owning e
+  then tiling true (frontier sh') ((taken_all e tr' ++ dropped_all tr') ++ accs (upd (c_pool c) t ts'))
+  else dropped_all tr' = [].
+Proof.
+  intros I Hin Et Ed P Hno Hf. pose proof (k_led c I) as Hl.
+  destruct (e_owning e).
+  - rewrite (Hf eq_refl), Et, Ed.
+    eapply tiling_perm; [apply Permutation_sym;
+       apply (move_perm (c_pool c) t ts' (taken_all e (c_trace c) ++ dropped_all (c_trace c)) _ (newtk ++ newdr) []);
+       [assumption|exact P|apply led_base_perm]|].
+    exact Hl.
+  - rewrite Ed, (Hno eq_refl), Hl. reflexivity.
+Qed.
+
+Lemma ext_led c t ts' sh' tr' newtk newdr took cnt :
+  KInv c -> In t L ->
+  taken_all e tr' = newtk ++ taken_all e (c_trace c) -> dropped_all tr' = newdr ++ dropped_all (c_trace c) ->
+  (e_owning e = true ->
+   Permutation ((newtk ++ newdr) ++ acc_iv ts') (led_split (frontier (c_sh c)) took cnt ++ acc_iv (c_pool c t))) ->
+  took <= cnt -> frontier sh' = frontier (c_sh c) + cnt ->
+  (e_owning e = false -> newdr = []) ->
+  if e_owning e
+  then tiling true (frontier sh') ((taken_all e tr' ++ dropped_all tr') ++ accs (upd (c_pool c) t ts'))
+  else dropped_all tr' = [].
+Proof.
+  intros I Hin Et Ed P Htk Hf Hno. pose proof (k_led c I) as Hl.
+  destruct (e_owning e).
+  - specialize (P eq_refl). rewrite Hf, Et, Ed.
+    eapply tiling_perm; [apply Permutation_sym;
+       apply (move_perm (c_pool c) t ts' (taken_all e (c_trace c) ++ dropped_all (c_trace c)) _ (newtk ++ newdr)
+                        (led_split (frontier (c_sh c)) took cnt));
+       [assumption|exact P|apply led_base_perm]|].
+    apply tiling_extend_led; assumption.
+  - rewrite Ed, (Hno eq_refl), Hl. reflexivity.
+Qed.
+
+Lemma not_owning_drops_run v cnt : e_owning e = false -> drops_of_run e v cnt = [].
+Proof using. intros H. unfold drops_of_run. rewrite H. reflexivity. Qed.
+
+Lemma not_owning_drops_after k rs : e_owning e = false -> drops_after e k rs = [].
+Proof using.
+  intros H. revert k. induction rs as [|r rs IH]; intros k; cbn [drops_after]; [reflexivity|].
+  destruct (r_cnt r <=? k); [apply IH|]. rewrite not_owning_drops_run by assumption. cbn [app]. apply IH.
+Qed.
+
+Lemma not_owning_stale ts : e_owning e = false -> stale_drops e ts = [].
+Proof using. intros H. unfold stale_drops, drops_of_list. rewrite H. destruct (t_buf ts); reflexivity. Qed.
 
 (** ** the per-event checks *)
 
@@ -419,6 +587,12 @@ Proof.
         -- cbn [app has_skip]. destruct o; try reflexivity. contradiction Hns; reflexivity.
         -- cbn [app skip_returned]. auto.
     + cbn [app]. rewrite all_rets_call. apply (k_evs c I).
+    + intros Hnp. apply (same_gap c t _ _ _ []); try assumption; try reflexivity; auto;
+        try exact (has_panic_app_false [ECall t o] _ Hnp).
+      unfold acc_iv. cbn [t_acc map app]. rewrite Hacc. apply Permutation_refl.
+    + apply (same_led c t _ _ _ [] []); try assumption; try reflexivity.
+      unfold acc_iv. cbn [t_acc map app]. rewrite Hacc. apply Permutation_refl.
+    + cbn [t_buf]. apply (k_slots c I).
   - (* the operation returns at once *)
     assert (Hnull : null_pair o r = true).
     { unfold call_res in E. destruct o; cbn [wf_op] in Hwo; try discriminate.
@@ -441,6 +615,21 @@ Proof.
       - destruct (N.eqb_spec c0 0); [|destruct (c0 =? 1); discriminate].
         injection E as <- <- <-. repeat split; try assumption; discriminate. }
     destruct Hr as (Hb & Hcov & Hne & Hns).
+    assert (Hstale : stale_drops e (c_pool c t) = []).
+    { unfold stale_drops. destruct (t_buf (c_pool c t)) as [bf|] eqn:Ebf; [|reflexivity].
+      rewrite (k_slots c I t bf Ebf). unfold drops_of_list. destruct (e_owning e); reflexivity. }
+    assert (Hr2 : res_taken e r = [] /\ d = [] /\ (forall bf, b = Some bf -> bf_slots bf = [])).
+    { unfold call_res in E. destruct o; try discriminate.
+      - destruct (e_kind e); try discriminate Hk; discriminate.
+      - destruct (N.eqb_spec c0 0).
+        + injection E as <- <- <-. repeat split; try reflexivity. apply (k_slots c I).
+        + injection E as <- <- <-. rewrite Hstale. repeat split; try reflexivity. intros bf Hbf. injection Hbf as <-.
+          cbn [bf_slots]. unfold empty_slots. destruct kind_cases as [K|[K|[K|K]]]; rewrite K; reflexivity.
+      - destruct (t_buf (c_pool c t)); [discriminate|]. injection E as <- <- <-. repeat split; try reflexivity. discriminate.
+      - injection E as <- <- <-. rewrite Hstale. repeat split; try reflexivity. discriminate.
+      - destruct (N.eqb_spec c0 0); [|destruct (c0 =? 1); discriminate].
+        injection E as <- <- <-. repeat split; try reflexivity. apply (k_slots c I). }
+    destruct Hr2 as (Htk & Hd & Hsl).
     apply kinv_commit; try assumption.
     + repeat constructor.
     + reflexivity.
@@ -473,13 +662,21 @@ Proof.
     + cbn [app]. rewrite all_rets_ret, all_rets_call, (k_evs c I), andb_true_r.
       apply ev_all_null with o (c_trace c); [|exact Hnull].
       cbn [split_call]. rewrite Nat.eqb_refl. reflexivity.
+    + intros Hnp. apply (same_gap c t _ _ _ []); try assumption; auto;
+        try exact (has_panic_app_false [ERet t r d; ECall t o] _ Hnp).
+      * cbn [app cov]; rewrite Hcov; reflexivity.
+      * unfold acc_iv. cbn [t_acc map app]. rewrite Hacc. apply Permutation_refl.
+    + apply (same_led c t _ _ _ [] []); try assumption; try reflexivity.
+      * cbn [app taken_all]. rewrite Htk. reflexivity.
+      * cbn [app dropped_all]. rewrite Hd. reflexivity.
+      * unfold acc_iv. cbn [t_acc map app]. rewrite Hacc. apply Permutation_refl.
 Qed.
 
 (** ** a pull: the fetch_add on the position counter and what follows it *)
 
 Lemma run_iv_at b cnt oi : b < e_len e -> run_iv e (mk_run oi (val_of e b) cnt) = (b, cnt).
 Proof using.
-  clear Hk. intros Hb. unfold run_iv, pos_of, val_of, mk_run. cbn [r_val r_cnt].
+  clear Hk Hown. intros Hb. unfold run_iv, pos_of, val_of, mk_run. cbn [r_val r_cnt].
   destruct (e_kind e); try reflexivity. f_equal. lia.
 Qed.
 
@@ -497,7 +694,9 @@ Qed.
 Lemma frontier_end sh q :
   wf_req q -> pull_spec e (q_n q) (s_c sh) = PREnd ->
   s_c sh + k_incr e q < W ->
-  frontier (with_c sh (wadd (s_c sh) (k_incr e q))) = frontier sh /\ (q_n q <> 0 -> e_len e <= s_c sh).
+  frontier (with_c sh (wadd (s_c sh) (k_incr e q))) = frontier sh /\ (q_n q <> 0 -> e_len e <= s_c sh) /\
+  (s_c (with_c sh (wadd (s_c sh) (k_incr e q))) < e_len e ->
+     s_c sh < e_len e /\ s_c (with_c sh (wadd (s_c sh) (k_incr e q))) = s_c sh).
 Proof.
   intros [Hn Hm] PS Hw. apply pull_spec_end in PS.
   rewrite wadd_nowrap by assumption.
@@ -516,18 +715,6 @@ Proof using.
   - assert (took = cnt) as -> by lia. cbn [runs_take map app].
     rewrite run_iv_at by assumption. reflexivity.
   - cbn [map app]. rewrite run_iv_at by assumption. reflexivity.
-Qed.
-
-Lemma tiling_extend_split cl n h cnt took :
-  took <= cnt -> tiling cl n h ->
-  tiling cl (n + cnt) (((if took =? 0 then [] else [(n, took)]) ++ [(n + took, cnt - took)]) ++ h).
-Proof.
-  intros Ht T. destruct (N.eqb_spec took 0) as [->|Hz].
-  - cbn [app]. rewrite N.add_0_r, N.sub_0_r. apply tiling_extend. exact T.
-  - cbn [app]. replace (n + cnt) with ((n + took) + (cnt - took)) by lia.
-    eapply tiling_perm; [apply perm_swap|].
-    apply tiling_extend with (n := n + took).
-    apply tiling_extend. exact T.
 Qed.
 
 Lemma not_skip_call ts o q : call_res e ts o = CGo (PRes q) -> o <> Skip.
@@ -611,6 +798,33 @@ Proof.
       injection C as <- <-; exists c; (split; [reflexivity|assumption]).
 Qed.
 
+Lemma drops_after_one u oi b cnt :
+  b < e_len e -> u <= cnt ->
+  drops_iv (drops_after e u [mk_run oi (val_of e b) cnt])
+  = if e_owning e then (if 0 <? cnt - u then [(b + u, cnt - u)] else []) else [].
+Proof using.
+  clear Hk Hown. intros Hb Hu. cbn [drops_after]. unfold mk_run. cbn [r_cnt r_val].
+  destruct (N.leb_spec cnt u) as [H|H].
+  - assert (cnt - u = 0) as -> by lia. destruct (e_owning e); reflexivity.
+  - rewrite app_nil_r. unfold drops_of_run. destruct (e_owning e); [|reflexivity]. cbn [andb].
+    destruct (N.ltb_spec 0 (cnt - u)); [|lia]. cbn [drops_iv map d_lo d_cnt]. f_equal. f_equal.
+    unfold pos_of, val_of. destruct (e_kind e); lia.
+Qed.
+
+Lemma runs_take_one u oi v cnt : 1 <= u -> u <= cnt -> runs_take u [mk_run oi v cnt] = [mk_run oi v u].
+Proof using.
+  intros H1 H2. cbn [runs_take]. destruct (N.eqb_spec u 0); [lia|]. unfold mk_run. cbn [r_cnt r_idx r_val].
+  destruct (N.leb_spec cnt u); [|reflexivity]. assert (u = cnt) as -> by lia. reflexivity.
+Qed.
+
+Lemma runs_take_map took oi b cnt :
+  b < e_len e -> took <= cnt ->
+  map (run_iv e) (runs_take took [mk_run oi (val_of e b) cnt]) = (if took =? 0 then [] else [(b, took)]).
+Proof using.
+  clear Hk Hown. intros Hb Ht. destruct (N.eqb_spec took 0) as [->|Hz]; [reflexivity|].
+  rewrite runs_take_one by lia. cbn [map]. rewrite run_iv_at by assumption. reflexivity.
+Qed.
+
 Lemma chunk_ok_at n k b cnt :
   b < e_len e -> 1 <= cnt -> cnt <= n -> b + cnt <= e_len e -> (cnt < n -> b + cnt = e_len e) ->
   chunk_ok e n k (chunk_res b [mk_run (Some b) (val_of e b) cnt] cnt (N.min k cnt)) = true.
@@ -636,7 +850,9 @@ Lemma deliver_top_known ts q b cnt :
     /\ forallb (run_idx_ok e) (res_runs r) = true
     /\ (forall k, q_mode q = MChunk k \/ q_mode q = MBuf k -> chunk_ok e (q_n q) k r = true)
     /\ exists took, took <= cnt /\
-         res_cover e r = (if took =? 0 then [] else [(b, took)]) ++ [(b + took, cnt - took)].
+         res_cover e r = (if took =? 0 then [] else [(b, took)]) ++ [(b + took, cnt - took)]
+         /\ (e_owning e = false -> d = [])
+         /\ (e_owning e = true -> res_taken e r ++ drops_iv d = led_split b took cnt).
 Proof.
   intros Hb Hc Hq Hone Hcn Hcl Hsh. unfold deliver_top.
   destruct (q_mode q) as [v|k|k] eqn:M.
@@ -645,7 +861,8 @@ Proof.
       (split; [reflexivity|split; [reflexivity|split; [reflexivity|]]]);
       (split; [unfold run_idx_ok; cbn [strip_idx mk_run r_idx r_cnt r_val]; rewrite ?N.eqb_refl, ?orb_true_r; reflexivity|]);
       (split; [intros k [X|X]; discriminate X|]); exists 0; (split; [lia|]);
-      rewrite ?run_iv_strip, run_iv_at by assumption; cbn [N.eqb app]; f_equal; f_equal; lia.
+      rewrite ?run_iv_strip, run_iv_at by assumption; unfold led_split; cbn [N.eqb N.ltb N.compare N.sub app drops_iv map];
+      (split; [f_equal; f_equal; lia|]); (split; [reflexivity|]); intros _; f_equal; f_equal; lia.
   - eexists _, _. split; [reflexivity|]. unfold chunk_res at 1 2 3 4. cbn [is_end is_panic len_answer res_runs].
     split; [reflexivity|split; [reflexivity|split; [reflexivity|]]].
     split; [|split].
@@ -653,7 +870,10 @@ Proof.
       destruct (cnt <=? N.min k cnt); cbn [runs_take forallb]; unfold run_idx_ok; cbn [mk_run r_idx r_cnt r_val];
         rewrite ?N.eqb_refl, ?orb_true_r; reflexivity.
     + intros k' [X|X]; [|discriminate X]. injection X as <-. apply chunk_ok_at; assumption.
-    + exists (N.min k cnt). split; [lia|]. unfold chunk_res. cbn [res_cover]. apply cover_chunk; [assumption|lia].
+    + exists (N.min k cnt). split; [lia|]. unfold chunk_res. cbn [res_cover res_taken]. split; [apply cover_chunk; [assumption|lia]|].
+      split; [intros Ho; apply not_owning_drops_after; assumption|].
+      intros Ho. rewrite drops_after_one by (assumption || lia). rewrite Ho. unfold led_split. f_equal.
+      rewrite runs_take_map by (assumption || lia). reflexivity.
   - pose proof not_iter as Hni. remember (e_kind e) as kd eqn:K. destruct kd; try (contradiction Hni; reflexivity);
       (eexists _, _; split; [reflexivity|]; unfold chunk_res at 1 2 3 4; cbn [is_end is_panic len_answer res_runs];
        split; [reflexivity|split; [reflexivity|split; [reflexivity|]]];
@@ -662,13 +882,10 @@ Proof.
          destruct (cnt <=? N.min k cnt); cbn [runs_take forallb]; unfold run_idx_ok; cbn [mk_run r_idx r_cnt r_val];
          rewrite ?N.eqb_refl, ?orb_true_r; reflexivity
        | intros k' [X|X]; [discriminate X|]; injection X as <-; apply chunk_ok_at; assumption
-       | exists (N.min k cnt); split; [lia|]; unfold chunk_res; cbn [res_cover]; apply cover_chunk; [assumption|lia] ]).
-Qed.
-
-Lemma runs_take_one u oi v cnt : 1 <= u -> u <= cnt -> runs_take u [mk_run oi v cnt] = [mk_run oi v u].
-Proof using.
-  intros H1 H2. cbn [runs_take]. destruct (N.eqb_spec u 0); [lia|]. unfold mk_run. cbn [r_cnt r_idx r_val].
-  destruct (N.leb_spec cnt u); [|reflexivity]. assert (u = cnt) as -> by lia. reflexivity.
+       | exists (N.min k cnt); split; [lia|]; unfold chunk_res; cbn [res_cover res_taken]; split; [apply cover_chunk; [assumption|lia]|];
+         split; [intros Ho; apply not_owning_drops_after; assumption|];
+         intros Ho; rewrite drops_after_one by (assumption || lia); rewrite Ho; unfold led_split; f_equal;
+         rewrite runs_take_map by (assumption || lia); reflexivity ]).
 Qed.
 
 Lemma loop_invoke_cases l crash done b cnt :
@@ -752,7 +969,7 @@ Proof.
   unfold finish.
   destruct (pull_spec e (q_n q) (s_c (c_sh c))) as [|b' rs cnt] eqn:PS.
   - (* the pull reports the end *)
-    destruct (frontier_end (c_sh c) q Hq PS Hw) as [Hf Hlen].
+    destruct (frontier_end (c_sh c) q Hq PS Hw) as (Hf & Hlen & Hcs).
     unfold deliver. destruct (q_ctx q) as [|l crash] eqn:Ctx.
     + (* directly *)
       destruct (top_ops _ _ _ Hres Ctx) as (Hnull & _).
@@ -780,6 +997,10 @@ Proof.
         intros H. cbn [app]. apply skip_returned_cons. exact H.
       * cbn [app]. rewrite all_rets_ret, (k_evs c I), andb_true_r.
         apply ev_all_null with o older; assumption.
+      * intros Hnp. apply (same_gap c t _ _ _ []); try assumption; try reflexivity;
+          try exact (has_panic_app_false [ERet t RNone []] _ Hnp).
+      * apply (same_led c t _ _ _ [] []); try assumption; try reflexivity; auto.
+      * cbn [set_pc t_buf]. apply (k_slots c I).
     + (* inside a loop: the loop returns *)
       destruct (loop_ops _ _ _ _ _ Hres Ctx) as (cc & -> & Hcc).
       cbn [ret_ev]. apply kinv_commit; try assumption.
@@ -821,6 +1042,14 @@ Proof.
            intros H. unfold delivers_nothing. rewrite Hnil by (unfold stopped; rewrite H; now rewrite !orb_true_r). reflexivity.
         -- destruct (N.eqb_spec cc 0); [contradiction|]. cbn [loop_shape_ok]. rewrite forallb_rev.
            apply (Ha2 l cc crash eq_refl).
+      * intros Hnp. apply (same_gap c t _ _ _ (rev (acc_iv (c_pool c t)))); try assumption;
+          try exact (has_panic_app_false [ERet t (RLoop (rev (t_acc (c_pool c t)))) []] _ Hnp).
+        -- cbn [app cov res_cover res_taken]. unfold acc_iv. rewrite map_rev. reflexivity.
+        -- unfold acc_iv at 2. cbn [t_acc map]. rewrite app_nil_r. symmetry. apply Permutation_rev.
+      * apply (same_led c t _ _ _ (rev (acc_iv (c_pool c t))) []); try assumption; try reflexivity; auto.
+        -- cbn [app taken_all res_taken]. unfold acc_iv. rewrite map_rev. reflexivity.
+        -- unfold acc_iv at 2. cbn [t_acc map]. rewrite !app_nil_r. symmetry. apply Permutation_rev.
+      * cbn [t_buf]. apply (k_slots c I).
   - (* the pull delivers [s_c, s_c + cnt) *)
     destruct (frontier_got (c_sh c) q b' rs cnt Hq PS Hw) as (Hf0 & Hf1 & Hlt).
     apply pull_spec_got in PS. destruct PS as (-> & -> & Hc1 & Hcn & Hcl & Hshort).
@@ -834,7 +1063,7 @@ Proof.
     + (* directly *)
       specialize (Hacc eq_refl).
       destruct (top_ops _ _ _ Hres Ctx) as (_ & Hnl & Hnh & Hnt & Hop).
-      destruct (deliver_top_known (c_pool c t) q b cnt Hlt Hc1 Hq) as (r & d & -> & Hne & Hnp & Hla & Hidx & Hchk & took & Htk & Hcov); try assumption.
+      destruct (deliver_top_known (c_pool c t) q b cnt Hlt Hc1 Hq) as (r & d & -> & Hne & Hnp & Hla & Hidx & Hchk & took & Htk & Hcov & Hdno & Hdled); try assumption.
       { intros v Hv. destruct Hq as [_ Hm]. rewrite Hv in Hm. lia. }
       cbn [ret_ev]. apply kinv_commit; try assumption.
       * repeat constructor.
@@ -867,6 +1096,19 @@ Proof.
         -- rewrite Hns_s. discriminate.
         -- apply ev_C11_nolen with o older; try assumption. rewrite Hns_z. discriminate.
         -- destruct o; try reflexivity. contradiction (Hnl l c0 crash); reflexivity.
+      * intros Hnpp. pose proof (has_panic_app_false [ERet t r d] _ Hnpp) as Hnp0.
+        apply (ext_gap c t _ _ _ ((if took =? 0 then [] else [(b, took)]) ++ [(b + took, cnt - took)]) ((if took =? 0 then [] else [(b, took)]) ++ [(b + took, cnt - took)]) cnt); try assumption.
+        -- cbn [app cov]. rewrite Hcov. reflexivity.
+        -- unfold acc_iv. cbn [set_pc t_acc]. rewrite Hacc. cbn [map]. rewrite !app_nil_r. apply Permutation_refl.
+        -- apply iv_total_split. assumption.
+        -- apply iv_maxhi_split; assumption.
+        -- unfold frontier in Hf1. fold b. intros Hlt'. lia.
+      * apply (ext_led c t _ _ _ (res_taken e r) (drops_iv d) took cnt); try assumption; try reflexivity.
+        -- intros Ho. unfold acc_iv. cbn [set_pc t_acc]. rewrite Hacc. cbn [map]. rewrite !app_nil_r. rewrite Hf0.
+           rewrite (Hdled Ho). apply Permutation_refl.
+        -- rewrite Hf0. exact Hf1.
+        -- intros Ho. rewrite (Hdno Ho). reflexivity.
+      * cbn [set_pc t_buf]. apply (k_slots c I).
     + (* inside a loop *)
       destruct (loop_ops _ _ _ _ _ Hres Ctx) as (cc & -> & Hcc).
       unfold deliver_loop.
@@ -916,6 +1158,19 @@ Proof.
            ++ destruct (N.eqb_spec cc 0); [contradiction|].
               change (forallb (shape_ok l) (rev (rev inv ++ t_acc (c_pool c t))) = true).
               rewrite forallb_rev, forallb_app, forallb_rev, Hi2. cbn [andb]. apply (Ha2 l cc crash eq_refl).
+        -- intros Hnpp. cbn [app has_panic is_panic orb] in Hnpp. discriminate Hnpp.
+        -- apply (ext_led c t _ _ _ (rev (acc_iv (c_pool c t)) ++ [(b, used)])
+                          (drops_iv (drops_after e used [mk_run (Some b) (val_of e b) cnt])) used cnt); try assumption; try reflexivity.
+           ++ cbn [app taken_all]. rewrite <- Hcovr. reflexivity.
+           ++ intros Ho. unfold acc_iv at 2. cbn [t_acc map]. rewrite app_nil_r.
+              rewrite drops_after_one by (assumption || lia). rewrite Ho, Hf0. unfold led_split.
+              destruct (N.eqb_spec used 0); [lia|]. rewrite <- Permutation_rev.
+              transitivity (acc_iv (c_pool c t) ++ ([(b, used)] ++ (if 0 <? cnt - used then [(b + used, cnt - used)] else []))).
+              ** rewrite !app_assoc. apply Permutation_refl.
+              ** apply Permutation_app_comm.
+           ++ rewrite Hf0. exact Hf1.
+           ++ intros Ho. rewrite not_owning_drops_after by assumption. reflexivity.
+        -- cbn [t_buf]. apply (k_slots c I).
       * (* the loop goes on *)
         assert (Hinv1 : exists i0, inv = [i0] /\ run_iv e i0 = (b, cnt)).
         { destruct inv as [|i0 [|]]; try discriminate Hinv. exists i0. split; [reflexivity|]. cbn [map] in Hinv. congruence. }
@@ -947,6 +1202,15 @@ Proof.
         -- cbn [app]. intros m Hm. pose proof (k_rep c I m Hm). lia.
         -- apply (sk_keep c t _ []); try assumption; [reflexivity|auto].
         -- cbn [app]. apply (k_evs c I).
+        -- intros Hnp0. cbn [app] in Hnp0. apply (ext_gap c t _ _ _ [] [(b, cnt)] cnt); try assumption; try reflexivity.
+           ++ unfold acc_iv. cbn [t_acc app rev map]. rewrite Hi0. apply Permutation_refl.
+           ++ cbn [iv_total snd]. lia.
+           ++ cbn [iv_maxhi snd fst]. unfold iv_hi. cbn [fst snd]. fold b. destruct (N.eqb_spec cnt 0); lia.
+           ++ unfold frontier in Hf1. fold b. intros; lia.
+        -- apply (ext_led c t _ _ _ [] [] cnt cnt); try assumption; try reflexivity; try lia.
+           ++ intros Ho. unfold acc_iv. cbn [t_acc app rev map]. rewrite Hi0, Hf0. unfold led_split.
+              destruct (N.eqb_spec cnt 0); [lia|]. replace (cnt - cnt) with 0 by lia. cbn [N.ltb N.compare app]. apply Permutation_refl.
+        -- cbn [t_buf]. apply (k_slots c I).
 Qed.
 
 (** ** skip_to_end and the length queries *)
@@ -972,9 +1236,14 @@ Lemma kinv_ret_plain c t r d v l :
      (o <> Skip /\ v = s_c (c_sh c)) \/ (o = Skip /\ e_len e <= v)) ->
   (forall m, min_reported (ERet t r d :: c_trace c) = Some m -> e_len e - frontier (with_c (c_sh c) v) <= m) ->
   ev_all t r d (c_trace c) = true ->
+  (if e_owning e
+   then tiling true (frontier (with_c (c_sh c) v))
+          ((taken_all e (ERet t r d :: c_trace c) ++ dropped_all (ERet t r d :: c_trace c))
+           ++ accs (upd (c_pool c) t (set_pc (c_pool c t) PIdle)))
+   else dropped_all (ERet t r d :: c_trace c) = []) ->
   KInv (commit c t (with_c (c_sh c) v) (set_pc (c_pool c t) PIdle) l [ERet t r d]).
 Proof.
-  intros I Hin Hni Hacc Hcov Hne Hnp Hctx Hrep Hev.
+  intros I Hin Hni Hacc Hcov Hne Hnp Hctx Hrep Hev Hledp.
   destruct (k_wf c I t) as (Hok & Hops & Hbuf).
   pose proof (k_call c I t) as Hc. unfold call_ok in Hc. rewrite Hni in Hc.
   destruct Hc as (o & older & Hpend & Hres).
@@ -1012,13 +1281,24 @@ Proof.
       * intros H. cbn [app]. apply skip_returned_cons. exact H.
     + intros _. left. cbn [app skip_returned]. rewrite Hsplit. reflexivity.
   - cbn [app]. rewrite all_rets_ret, (k_evs c I), andb_true_r. exact Hev.
+  - intros Hnpp. pose proof (has_panic_app_false [ERet t r d] _ Hnpp) as Hnp0.
+    apply (same_gap c t _ _ _ []); try assumption.
+    + cbn [app cov]. rewrite Hcov. reflexivity.
+    + unfold acc_iv. cbn [set_pc t_acc app]. apply Permutation_refl.
+    + cbn [with_c s_c]. intros Hv. destruct Hctx as [[_ ->]|(_ & Hv1)]; [auto|lia].
+  - cbn [set_pc t_buf]. apply (k_slots c I).
 Qed.
 
 Lemma kinv_skip_gen c t v l d :
   KInv c -> In t L -> t_pc (c_pool c t) = PSkip -> e_len e <= v ->
+  (if e_owning e
+   then tiling true (frontier (with_c (c_sh c) v))
+          ((taken_all e (ERet t RUnit d :: c_trace c) ++ dropped_all (ERet t RUnit d :: c_trace c))
+           ++ accs (upd (c_pool c) t (set_pc (c_pool c t) PIdle)))
+   else dropped_all (ERet t RUnit d :: c_trace c) = []) ->
   KInv (commit c t (with_c (c_sh c) v) (set_pc (c_pool c t) PIdle) l [ERet t RUnit d]).
 Proof.
-  intros I Hin Hpc Hv.
+  intros I Hin Hpc Hv Hledp.
   destruct (k_wf c I t) as (Hok & _ & _). unfold kpc_ok in Hok. rewrite Hpc in Hok.
   assert (Hni : is_idle (c_pool c t) = false) by (unfold is_idle; now rewrite Hpc).
   pose proof (k_call c I t) as Hc. unfold call_ok in Hc. rewrite Hni in Hc.
@@ -1029,8 +1309,20 @@ Proof.
   - apply ev_all_null with Skip older; [apply pend_split; assumption|reflexivity].
 Qed.
 
-Lemma kind_cases : e_kind e = KSlice \/ e_kind e = KVec \/ e_kind e = KArray \/ e_kind e = KRange.
-Proof. pose proof not_iter as H. destruct (e_kind e); auto. contradiction H; reflexivity. Qed.
+Lemma not_owning_kind : (e_kind e = KSlice \/ e_kind e = KRange) -> e_owning e = false.
+Proof using Hown. intros [K|K]; rewrite Hown, K; reflexivity. Qed.
+
+Lemma skip_led_store c t :
+  KInv c -> In t L -> t_pc (c_pool c t) = PSkip -> (e_kind e = KSlice \/ e_kind e = KRange) ->
+  if e_owning e
+   then tiling true (frontier (with_c (c_sh c) (e_len e)))
+          ((taken_all e (ERet t RUnit [] :: c_trace c) ++ dropped_all (ERet t RUnit [] :: c_trace c))
+           ++ accs (upd (c_pool c) t (set_pc (c_pool c t) PIdle)))
+   else dropped_all (ERet t RUnit [] :: c_trace c) = [].
+Proof.
+  intros I Hin Hpc Hkk. pose proof (not_owning_kind Hkk) as Ho.
+  pose proof (k_led c I) as Hl. rewrite Ho in *. cbn [dropped_all drops_iv map app]. exact Hl.
+Qed.
 
 Lemma kinv_skip c t :
   KInv c -> In t L -> t_pc (c_pool c t) = PSkip ->
@@ -1038,19 +1330,43 @@ Lemma kinv_skip c t :
   KInv (step e c t).
 Proof.
   intros I Hin Hpc Hw.
+  destruct (k_wf c I t) as (Hok & _ & _). unfold kpc_ok in Hok. rewrite Hpc in Hok.
   unfold step. rewrite Hpc.
   pose proof He as [Hlen _].
+  assert (Hva : e_kind e = KVec \/ e_kind e = KArray ->
+     KInv match k_fetch_n e (e_len e) (s_c (c_sh c)) with
+       | Ok PREnd =>
+           commit c t (with_c (c_sh c) (wadd (s_c (c_sh c)) (N.min (e_len e) (e_len e)))) (set_pc (c_pool c t) PIdle)
+             (LAtom t SC AAdd (N.min (e_len e) (e_len e)) (s_c (c_sh c))) [ERet t RUnit []]
+       | Ok (PRGot _ rs _) =>
+           commit c t (with_c (c_sh c) (wadd (s_c (c_sh c)) (N.min (e_len e) (e_len e)))) (set_pc (c_pool c t) PIdle)
+             (LAtom t SC AAdd (N.min (e_len e) (e_len e)) (s_c (c_sh c))) [ERet t RUnit (drops_after e 0 rs)]
+       | Panic k =>
+           commit c t (with_c (c_sh c) (wadd (s_c (c_sh c)) (N.min (e_len e) (e_len e)))) (set_pc (c_pool c t) PIdle)
+             (LAtom t SC AAdd (N.min (e_len e) (e_len e)) (s_c (c_sh c))) [ERet t (RPanic k []) []]
+       end).
+  { intros Hkk.
+    rewrite (k_fetch_n_spec e (e_len e) (s_c (c_sh c)) He Hlen).
+    replace (N.min (e_len e) (e_len e)) with (e_len e) by lia. rewrite wadd_nowrap by assumption.
+    destruct (pull_spec e (e_len e) (s_c (c_sh c))) as [|b' rs cnt] eqn:PS.
+    - apply kinv_skip_gen; try assumption; [lia|].
+      apply pull_spec_end in PS.
+      apply (same_led c t _ _ _ [] []); try assumption; try reflexivity.
+      intros _. unfold frontier, with_c. cbn [s_c]. lia.
+    - apply pull_spec_got in PS. destruct PS as (-> & -> & Hc1 & Hcn & Hcl & Hsh).
+      apply kinv_skip_gen; try assumption; [lia|].
+      apply (ext_led c t _ _ _ [] (drops_iv (drops_after e 0 [mk_run (Some (s_c (c_sh c))) (val_of e (s_c (c_sh c))) cnt])) 0 cnt);
+        try assumption; try reflexivity; try lia.
+      + intros Ho. unfold acc_iv. cbn [set_pc t_acc app]. rewrite Hok. cbn [map]. rewrite !app_nil_r.
+        rewrite drops_after_one by lia. rewrite Ho. unfold led_split. cbn [N.eqb app].
+        replace (frontier (c_sh c)) with (s_c (c_sh c)) by (unfold frontier; lia). apply Permutation_refl.
+      + unfold frontier, with_c. cbn [s_c]. lia.
+      + intros Ho. rewrite not_owning_drops_after by assumption. reflexivity. }
   destruct kind_cases as [K|[K|[K|K]]]; rewrite K.
-  - apply kinv_skip_gen; try assumption; lia.
-  - rewrite (k_fetch_n_spec e (e_len e) (s_c (c_sh c)) He Hlen).
-    replace (N.min (e_len e) (e_len e)) with (e_len e) by lia. rewrite wadd_nowrap by assumption.
-    destruct (pull_spec e (e_len e) (s_c (c_sh c))) as [|b' rs cnt];
-      (apply kinv_skip_gen; try assumption; lia).
-  - rewrite (k_fetch_n_spec e (e_len e) (s_c (c_sh c)) He Hlen).
-    replace (N.min (e_len e) (e_len e)) with (e_len e) by lia. rewrite wadd_nowrap by assumption.
-    destruct (pull_spec e (e_len e) (s_c (c_sh c))) as [|b' rs cnt];
-      (apply kinv_skip_gen; try assumption; lia).
-  - apply kinv_skip_gen; try assumption; lia.
+  - apply kinv_skip_gen; try assumption; [lia|]. apply skip_led_store; auto.
+  - apply Hva; auto.
+  - apply Hva; auto.
+  - apply kinv_skip_gen; try assumption; [lia|]. apply skip_led_store; auto.
 Qed.
 
 Lemma kinv_skip_store c t :
@@ -1059,7 +1375,8 @@ Lemma kinv_skip_store c t :
   KInv (step e c t).
 Proof.
   intros I Hin Hpc Hkk.
-  unfold step. rewrite Hpc. destruct Hkk as [K|K]; rewrite K; apply kinv_skip_gen; try assumption; lia.
+  unfold step. rewrite Hpc. destruct Hkk as [K|K]; rewrite K; (apply kinv_skip_gen; try assumption; [lia|]);
+    apply skip_led_store; auto.
 Qed.
 
 (** the length queries *)
@@ -1090,7 +1407,7 @@ Proof.
 Qed.
 
 Lemma knows_len_known : knows_len e = true.
-Proof using Hk. unfold knows_len. pose proof not_iter as H. destruct (e_kind e); try reflexivity. contradiction H; reflexivity. Qed.
+Proof using Hk. clear Hown. unfold knows_len. pose proof not_iter as H. destruct (e_kind e); try reflexivity. contradiction H; reflexivity. Qed.
 
 Lemma kinv_len c t hm :
   KInv c -> In t L -> t_pc (c_pool c t) = PLen hm -> KInv (step e c t).
@@ -1195,7 +1512,10 @@ Proof.
         destruct (end_reported_strong older) eqn:Es; [|reflexivity].
         assert (n = 0) as -> by (apply Hstop; unfold stopped; rewrite (end_strong_end _ Es); reflexivity).
         reflexivity.
-      + destruct (call_res_len_op _ _ _ Hres) as [[-> _]|[-> _]]; reflexivity. }
+      + destruct (call_res_len_op _ _ _ Hres) as [[-> _]|[-> _]]; reflexivity.
+    - replace (with_c (c_sh c) (s_c (c_sh c))) with (c_sh c) by (destruct (c_sh c); reflexivity).
+      apply (same_led c t _ _ _ [] []); try assumption; try reflexivity.
+      cbn [taken_all app]. destruct hm; reflexivity. }
   destruct kind_cases as [K|[K|[K|K]]]; rewrite K; exact Hgoal.
 Qed.
 
@@ -1309,6 +1629,12 @@ Proof.
   - discriminate.
   - discriminate.
   - reflexivity.
+  - intros _. unfold gap_ok, hist, accs. cbn [init c_trace c_pool c_sh cov app s_c].
+    rewrite gather_nil by reflexivity. cbn [iv_total iv_maxhi]. split; reflexivity.
+  - unfold led, accs, frontier. cbn [init c_trace c_pool c_sh taken_all dropped_all app s_c].
+    rewrite gather_nil by reflexivity. replace (N.min 0 (e_len e)) with 0 by lia.
+    destruct (e_owning e); [apply tiling_empty|reflexivity].
+  - discriminate.
 Qed.
 
 Lemma exec_snoc c sched t : exec e c (sched ++ [t]) = step e (exec e c sched) t.
